@@ -13,8 +13,8 @@ use vcommon::{
 use zlink_core::Reply;
 
 pub const RULE: &str = "case = an operation list over {Set (values 1,2,3,... through the state or a \
-clone of it), SetSame (set the value that is already current), Subscribe, Poll(i) (one poll_next of subscriber i with that subscriber's own counting waker), Clone, \
-DropOriginal} with up to 6 sets and up to 3 subscribers created at arbitrary points, followed by \
+clone of it), SetSame (set the value that is already current), Subscribe, Poll(i) (one poll_next of subscriber i with that subscriber's own counting waker), DropSub(i) (subscriber i drops its stream), Clone, \
+DropOriginal} with up to 6 sets and up to 3 live subscribers created at arbitrary points, followed by \
 draining every subscriber (every case is also run without this step, so that the states go away while values are still undelivered), then dropping every state and draining again; run against \
 zlink_tokio::notified and zlink_smol::notified. Oracle (model): what subscriber i receives is a \
 subsequence of the values set after it subscribed, each marked continues = \
